@@ -95,10 +95,57 @@ CLAIMS = {
         "note": NOTE_COMMON,
         "technique": "index-domain typing (abstract interpretation of list indices), coverage analysis of comprehension filters, case analysis of the branch guards",
     },
+    "C09": {
+        "text": "Static decision of the structural clauses of the metric bookkeeping: all (term, function) rows of the 10 metric tables agree "
+                "and no table repeats a term; metric terms have distinct labels/names; each wrapper delegates to the scikit-learn function "
+                "its name says with the sibling-checked 'none'-class handling (None -> num_classes, column 1 - sum), k=3, averaging modes, "
+                "same mask on both arrays; every mean over a selection is guarded against emptiness; each task builds its metric lists from "
+                "its own tables at the right level under its own name. Metric values vs independent formulas / order independence not decided.",
+        "design_ref": "DESIGN.md section 3, C09 (R09.1-R09.5)",
+        "note": NOTE_COMMON,
+        "technique": "table-row agreement over resolved names; sibling cross-check of wrapper summaries as canonical terms; guard-dominance rule for means",
+    },
+    "C11": {
+        "text": "Static decision of the structural clauses of buffer_geometry: negative buffers (only) rejected first; the three closed forms are "
+                "canonically the widened, clamped interval/box built by validating constructors; exactly those three types take the closed "
+                "form; buffers forwarded uncrossed at all four delegations; the shapely path scales/unscales by the same guarded factor "
+                "around a unit buffer, clips to [0, max_time + c] x [0, MAX_FREQUENCY] and re-validates. Containment/monotonicity on the "
+                "shapely path are numerical and not decided.",
+        "design_ref": "DESIGN.md section 3, C11 (R11.1-R11.6)",
+        "note": NOTE_COMMON,
+        "technique": "canonical-term comparison of closed forms; keyword-pairing (call binder); lambda-summary symmetry; guard evaluation on interval endpoints",
+    },
+    "C12": {
+        "text": "Static decision of the overlap predicates' structure: intervals_overlap symmetric; per threshold mode the returned comparison is "
+                "canonically min(stops) - max(starts) >= threshold (0 | absolute | relative x shorter width); threshold validation exact at the "
+                "endpoints 0 and 1; temporal/frequency predicates pass the right bounds projections and forward thresholds; is_in_clip decided "
+                "on all 9 orderings incl. touching cases and the negative-minimum guard.",
+        "design_ref": "DESIGN.md section 3, C12 (R12.1-R12.5)",
+        "note": NOTE_COMMON,
+        "technique": "swap-invariance and canonical comparison of summaries; ordering/interval-endpoint evaluation of extracted guards",
+    },
+    "C13": {
+        "text": "Static decision of the structural clauses of group_sound_events: adjacency from all unordered pairs of distinct events with "
+                "symmetric fill and square shape; comparison function called once per pair on the two elements; weak components of that matrix; "
+                "one unconditional append per event in input order; result = list of the per-label sequences. scipy's labelling and the empty "
+                "input are trusted / not decided.",
+        "design_ref": "DESIGN.md section 3, C13 (R13.1-R13.3)",
+        "note": NOTE_COMMON,
+        "technique": "pairing/mirroring rules over accumulator events (allocation-identity of local lists); single-call-site and single-append rules",
+    },
+    "C14": {
+        "text": "Static decision of the structural clauses of segment_clip: guards before the loop; lattice terms start = clip.start + i*hop, "
+                "end = min(start + duration, clip.end), same recording; stop/yield conditions decided on all orderings; the iteration bound "
+                "is a canonical non-deficient form or is shown non-deficient on a 128 000-point quarter-integer grid (deficient point = "
+                "witness); identifiers are uuid5 over (parent id, final start, final end). Float drift of i*hop is not decided.",
+        "design_ref": "DESIGN.md section 3, C14 (R14.1-R14.5)",
+        "note": NOTE_COMMON,
+        "technique": "canonical-term matching of the loop body; ordering evaluation of stop conditions; symbolic bound recognition with grid-witness search on the extracted bound formula",
+    },
 }
 
 _DONE = set(CLAIMS)
 NOT_APPLICABLE = {f"C{i:02d}": "checker under construction in this session (static rules designed in DESIGN.md section 3); "
                                "not yet claimed" for i in range(1, 21) if f"C{i:02d}" not in _DONE}
 
-FIX_COMMITS = ["c835c87 (C01 licence)", "7a83dd0 (C01 prediction-set sequences)", "531fadf (C02 evaluation tags)", "6fda367 (C04 Evaluation.score bounds)", "a327a28 (C06 clamp)", "9c74d6e (C07 zero-affinity pairs)", "e394000 (C08 index/coverage)", "40e4031 (C08 affinity)"]
+FIX_COMMITS = ["c835c87 (C01 licence)", "7a83dd0 (C01 prediction-set sequences)", "531fadf (C02 evaluation tags)", "6fda367 (C04 Evaluation.score bounds)", "a327a28 (C06 clamp)", "9c74d6e (C07 zero-affinity pairs)", "e394000 (C08 index/coverage)", "40e4031 (C08 affinity)", "2b5a48a (C09 terms)", "8a7afcb (C09 empty clip)", "23238c7 (C14 loop bound)"]
